@@ -122,3 +122,46 @@ func VH_BATCH(si, n, B, cache int) {
 	vAssert(vSameRows(rn.rows, rb.rows), "BATCH/row-and-batch-results-differ")
 	vCover("compared")
 }
+
+// VH_BATCH_DEL: delete over stores larger than the batch size, every pattern of selected rows,
+// with and without LIMIT; the store afterwards must be the prior state minus the selected slice.
+var vBatchDelLimits = [][2]int{{-1, -1}, {0, 1}, {1, 2}, {0, 3}, {2, 9}, {1, 0}}
+
+func VN_BATCH_DEL(tier int) int { return len(vBatchDelLimits) }
+
+func VH_BATCH_DEL(li, n, B, access int) {
+	keys := make([][]byte, n)
+	vals := make([][]byte, n)
+	for i := 0; i < n; i++ {
+		keys[i] = []byte{'a', byte('0' + i)}
+		vals[i] = vNondetBytes("v"+vItoa(i), 1, 1, "xy")
+	}
+	st := vNewStoreFrom(keys, vals)
+	PlanBatchSize = B
+	where := []string{"value = 'x'", "key ^= 'a' & value = 'x'", "key >= 'a0' & value = 'x'", "key in ('a0', 'a1', 'a2', 'a3', 'a4', 'a5') & value = 'x'"}[access]
+	q := "delete where " + where
+	s, c := vBatchDelLimits[li][0], vBatchDelLimits[li][1]
+	if s >= 0 {
+		q += " limit " + vItoa(s) + ", " + vItoa(c)
+	}
+	plan, err := NewOptimizer(q).BuildPlan(st)
+	vAssert(err == nil, "BATCH/delete-rejected")
+	r := vDrainBatch(plan, 2)
+	vAssert(r.err == nil, "BATCH/delete-error")
+	// rank of each selected pair among the selected ones decides whether the limit keeps it
+	ok := true
+	rank := 0
+	for i := 0; i < n; i++ {
+		sel := bytes.Equal(vals[i], []byte("x"))
+		gone := sel
+		if s >= 0 {
+			gone = vAnd(sel, vAnd(rank >= s, rank < s+c))
+		}
+		rank = rank + vIteInt(sel, 1, 0)
+		_, present := st.lookup(keys[i])
+		ok = vAnd(ok, present == vNot(gone))
+	}
+	vAssert(ok, "BATCH/delete-removes-exactly-the-selected-slice")
+	vAssert(len(st.keys) <= n, "BATCH/delete-adds-pairs")
+	vCover("deleted")
+}
